@@ -1,7 +1,7 @@
 ------------------------------ MODULE Conform ------------------------------
 (* Operators shared by the trace specifications: how an implementation dump relates to a
    specification value (C03), and the error-position rules (C20).                      *)
-EXTENDS JsonText, Errors
+EXTENDS JsonText, Errors, FiniteSets
 
 Has(r, f) == f \in DOMAIN r
 
@@ -38,6 +38,22 @@ ValMatchesU(v, d) ==
        [] v.t = "obj"  -> Len(d.m) = Len(v.m)
                           /\ \A i \in 1..Len(v.m) : \E j \in 1..Len(d.m) : d.m[j][1] = v.m[i][1].s /\ ValMatchesU(v.m[i][2], d.m[j][2])
        [] OTHER -> FALSE
+
+\* ---- sort_keys: every object's members in ascending key order, stably (dump format) ----
+LexLeq(a, b) ==       \* code-point sequences, lexicographic (= byte order of their UTF-8)
+  LET n == IF Len(a) < Len(b) THEN Len(a) ELSE Len(b)
+      diff == {i \in 1..n : a[i] # b[i]}
+  IN IF diff = {} THEN Len(a) <= Len(b)
+     ELSE LET i == CHOOSE i \in diff : \A j \in diff : i <= j IN a[i] < b[i]
+\* stable insertion sort of a sequence of <<key, value>> pairs
+InsertStable(sorted, p) ==
+  LET k == Cardinality({i \in 1..Len(sorted) : LexLeq(sorted[i][1], p[1])})   \* sorted is sorted: these form a prefix
+  IN SubSeq(sorted, 1, k) \o <<p>> \o SubSeq(sorted, k + 1, Len(sorted))
+RECURSIVE SortDump(_)
+SortDump(d) ==
+  CASE d.t = "arr" -> [d EXCEPT !.e = [i \in 1..Len(d.e) |-> SortDump(d.e[i])]]
+    [] d.t = "obj" -> [d EXCEPT !.m = FoldLeft(InsertStable, <<>>, [i \in 1..Len(d.m) |-> <<d.m[i][1], SortDump(d.m[i][2])>>])]
+    [] OTHER -> d
 
 \* error position rules (C20): offset within the input actually given to the entry point,
 \* line/column exactly those of the offset, displayable, never a lookup category
